@@ -78,9 +78,12 @@ def run(ctx):
         raise vlib.ToolError("generator is vacuous: too few programs evaluate to a value: %s" % per_api)
     n_lib, known_lib = base.triage_and_validate(ctx, tp, ap, "lib", selftest=True, shape_of=shape_c30)
 
+    if ctx.violations:
+        return          # already decided; the CLI stage (a second, long build) adds nothing
+
     cli = vlib.cli_bin()
     tc, ac = ctx.path("trace-cli.ndjson"), ctx.path("anomalies-cli.ndjson")
-    rc, out, wall = vlib.sh([b, "cli", ip, tc, "cli=" + cli, "anomalies=" + ac, "max=%d" % (300 if q else 3000),
+    rc, out, wall = vlib.sh([b, "cli", ip, tc, "cli=" + cli, "anomalies=" + ac, "max=%d" % (160 if q else 3000), "also=" + ap, "threads=4",
                              "seed=%d" % ctx.seed], timeout=6000)
     sc = json.loads(out.strip().splitlines()[-1])
     ctx.stage("replay (CLI subprocess)", wall, **sc)
